@@ -337,18 +337,21 @@ func (dsc *Discipline[Type]) waitZeroActual() {
 	}
 }
 
-func (dsc *Discipline[Type]) getOneFeedback() {
+// Returns true if waiting was interrupted by stop or context cancellation.
+func (dsc *Discipline[Type]) getOneFeedback() bool {
 	select {
 	case <-dsc.breaker.IsBreaked():
 		dsc.verifAt("OneStop", 0, false)
-		return
+		return true
 	case <-dsc.opts.Ctx.Done():
 		dsc.verifAt("OneCtx", 0, false)
-		return
+		return true
 	case priority := <-dsc.opts.Feedback:
 		dsc.decreaseActual(priority)
 		dsc.verifAt("FbOne", priority, false)
 	}
+
+	return false
 }
 
 func (dsc *Discipline[Type]) getLimitedFeedback() {
@@ -440,7 +443,11 @@ func (dsc *Discipline[Type]) waitCalcTactic() error {
 			return nil
 		}
 
-		dsc.getOneFeedback()
+		if interrupted := dsc.getOneFeedback(); interrupted {
+			// nothing may be distributed in this round, the loop must reach its exit check
+			dsc.resetTactic()
+			return nil
+		}
 	}
 }
 
